@@ -125,6 +125,18 @@ def run(tier):
         ok, at, _ = c.validate_trace(COMP, "BlocksTrace", cfg, trace, timeout=900, label="BlocksTrace")
         results["seq"] = (trace, ok, at, n)
 
+    def drive_scen():
+        # growth / window / bulk scenarios around the underlying buffer, in a process of their own (see blocks.go)
+        trace = c.path("trace", "scen.ndjson")
+        if c.run_vh_crashcheck(["drive", COMP, "-seed", c.seed, "-n", 1, "-out", trace, "-x", "only=scenarios"],
+                               "blocks: an allocator call took the whole process down after its underlying buffer was grown / re-mapped "
+                               "(memory fault)", timeout=600) is None:
+            results["scen"] = (trace, True, None, 0)
+            return
+        cfg = c.write_cfg(COMP, "BlocksTrace", postcondition="Accepted")
+        ok, at, _ = c.validate_trace(COMP, "BlocksTrace", cfg, trace, timeout=900, label="BlocksTrace-scenarios")
+        results["scen"] = (trace, ok, at, 1)
+
     def drive_conc():
         trace = c.path("trace", "conc.ndjson")
         n, ops, rounds = (5, 150, 2) if quick else (15, 300, 3)
@@ -136,7 +148,7 @@ def run(tier):
                                      timeout=900, label="BlocksLinTrace")
         results["conc"] = (trace, ok, at, n * rounds)
 
-    jobs = [lambda s=s: tlc_impl(s) for s in impl] + [tlc_geometry, tlc_contract, drive_seq, drive_conc]
+    jobs = [lambda s=s: tlc_impl(s) for s in impl] + [tlc_geometry, tlc_contract, drive_seq, drive_scen, drive_conc]
     if not quick:
         jobs.append(tlc_sim)
     parallel(jobs, max_workers=9 if quick else 6)
@@ -170,6 +182,15 @@ def run(tier):
         ctx = lines[max(0, at - 5):at]
         c.report_failure("blocks: recorded call/reply not allowed by BlockAlloc.tla/Geometry.tla: " + summarize(ctx[-1] if ctx else ""),
                          {"rejected_at_line": at, "context": ctx})
+    strace, sok, sat, sn = results["scen"]
+    if sn:
+        slines = open(strace).read().splitlines()
+        if sok:
+            c.traces_validated += len(slines)
+        else:
+            ctx = slines[max(0, sat - 1):sat]
+            c.report_failure("blocks: recorded call/reply not allowed by BlockAlloc.tla/Geometry.tla: " + summarize(ctx[-1] if ctx else ""),
+                             {"rejected_at_line": sat, "context": ctx})
     ctrace, cok, cat, cn = results["conc"]
     clines = open(ctrace).read().splitlines()
     if cok:
